@@ -231,6 +231,19 @@ static void check(Ctx &c, const Cfg &E, const TasmanianSparseGrid &G, const Tasm
             for(int i=0;i<n && !bad;i++){ bool far = false; for(int j=0;j<d;j++) if (std::abs(X[p][j] - xp[(size_t) i*d+j]) > S[(size_t) i*d+j] * (1 + 1e-9)) far = true; if (!far) continue; cnt("support-meaning");
                 if (y[i] != 0.0){ bad = true; std::ostringstream o; o.precision(15); o << "basis " << i << " (node " << xp[(size_t) i*d] << (d > 1 ? ",..." : "") << ", reported support " << S[(size_t) i*d] << ") has value " << y[i] << " at probe " << X[p][0] << (d > 1 ? ",..." : "") << " which is farther than the support"; rep(pre(E, "support-meaning") + tag, o.str()); } } }
     }
+    // ---- D''. the same meaning, probed where it is tight: just outside the reported support of every basis function, in every direction (a conformal map stretches
+    // lengths most at the ends of the domain: a radius computed with too small a factor is too short exactly for the narrow functions next to the boundary)
+    if (conf && (G.isLocalPolynomial() || G.isWavelet()) && G.getRule() != rule_semilocalp && n <= 600){
+        auto S = G.getHierarchicalSupport(); bool bad = false; int stride = std::max(1, n / 150);
+        std::vector<double> lo((size_t) d, -1.0), hi((size_t) d, 1.0); if (!E.ta.empty()) for(int j=0;j<d;j++){ lo[(size_t) j] = E.ta[(size_t) j]; hi[(size_t) j] = E.tb[(size_t) j]; }
+        for(int i=0;i<n && !bad;i+=stride) for(int j=0;j<d && !bad;j++) for(int sgn : {-1, 1}){
+            std::vector<double> x(xp.begin() + (size_t) i*d, xp.begin() + (size_t)(i+1)*d); double r = S[(size_t) i*d+j]; x[(size_t) j] += sgn * r * (1.0 + 1e-6);
+            if (x[(size_t) j] < lo[(size_t) j] || x[(size_t) j] > hi[(size_t) j]) continue;
+            auto y = G.evaluateHierarchicalFunctions(x); cnt("support-meaning");
+            if (y[(size_t) i] != 0.0){ bad = true; std::ostringstream o; o.precision(15); o << "basis " << i << " (node " << xp[(size_t) i*d+j] << " in direction " << j << ", reported support " << r << ") has value " << y[(size_t) i] << " at distance " << r * (1.0 + 1e-6) << " from its node";
+                rep(pre(E, "support-meaning") + tag, o.str()); break; }
+        }
+    }
     if (!loaded) return;
     // ---- G. evaluate = canonical surrogate at the pulled-back point; nodal reproduction at the mapped nodes
     const double *v = G.getLoadedValues(); int nl = G.getNumLoaded();
